@@ -25,10 +25,12 @@ from harness import common as C
 
 HEADER = """From Coq Require Import List ZArith Bool. Import ListNotations.
 From TLV Require Import Model.Effects Corr.C15."""
+HEADER_CASES = HEADER + "\nOpen Scope Z_scope.\n"      # Corr.C15.failing returns the failing identifiers as a list Z
 
 # ============================================================================ snapshot machinery
 SCALARS = (int, float, bool, str, complex, type(None), np.generic)
-ATTR_ORDER = ["weights", "core", "factors", "projections", "shape", "rank"]
+ATTR_ORDER = ["init", "sparsity_coefficients", "fixed_modes", "mask", "weights", "core", "factors", "projections", "shape", "rank"]
+# (estimator objects list the user options they hold first: Model.Effects.sk_estimator_fit reads them as attributes 0..nattr-1)
 BUF_CAP = 24      # model buffers are truncated to this many elements (contents are synthetic; only identity and offsets matter)
 
 
@@ -225,15 +227,15 @@ class Heap:
         return seen
 
     # ---- Gallina literals
-    def ref_lit(self, r):
-        return "RNull" if r is None else f"(RObj {r[0]}%nat {C.nat_list(r[1])})"
+    def ref_lit(self, r):       # compact constructors of Corr/C15.v: binary Z numerals (unary nat numerals dominate the shard cost)
+        return "RNull" if r is None else f"(R {r[0]}%Z {C.z_list(r[1])})"
 
     def heap_lit(self):
         out = []
         for oid, o in enumerate(self.objs):
             if o["kind"] == "buf":
                 n = min(int(o["py"].size), BUF_CAP)
-                out.append(f"OBuf {C.z_list([(i % 7) + 3 for i in range(n)])}")
+                out.append(f"SB {n}%Z")        # synthetic contents (i mod 7) + 3: Corr.C15.synth
             elif o["kind"] == "val":
                 out.append(f"OBuf {C.z_list([zlib.crc32(repr(o['py']).encode()) % 1000 + 3])}")
             else:
@@ -807,6 +809,73 @@ def entry_points(dtype=np.float64, seed=0):
     simple("validate_rank_lists", lambda s, r1, r2, r3, fm: (tl.validate_tt_rank(s, r1), tl.validate_tt_rank(s, r1, allow_overparametrization=False), tl.validate_tr_rank(s, r2), tl.validate_tucker_rank(s, r3), tl.validate_tucker_rank(s, 0.7, fixed_modes=fm)),
            lambda d: ([4, 3, 5], [1, 9, 9, 1], [2, 9, 9, 2], [9, 9, 9], [2, 0]))
     simple("unfolding_modes_lists", lambda X, rm, cm: (matricize(X, rm, cm), tl.partial_unfold(X, 1, skip_begin=1)), lambda d: (d.X, [2, 0], [1]))
+    # ---------------------------------------------------------------- round 5: what the surface audit found missing, the class-based API
+    # (fit / fit_transform / transform / predict / score / get_params / set_params of every estimator and decomposition class; the
+    # estimator as a RECEIVER argument holding the user's options), call sequences, the remaining documented in-place parameters
+    from tensorly.contrib.decomposition.tt_TTOI import TensorTrain_OI
+    simple("einsum_kronecker_inner_outer_mode_dot", _einsum(lambda fs, X, Mx, v: (tenalg.kronecker(fs), tenalg.kronecker(fs, skip_matrix=1, reverse=True), tenalg.inner(X, X), tenalg.inner(X, tl.transpose(X)[:, :, :2], n_modes=1),
+                                                                                  tenalg.outer([f[:, 0] for f in fs]), tenalg.batched_outer([X[:, :, 0], X[:, :, 1]]),
+                                                                                  tenalg.mode_dot(X, Mx, 1), tenalg.mode_dot(X, v, 1), tenalg.mode_dot(X, Mx.T, 1, transpose=True))),
+           lambda d: (d.fs, d.X, d.mat, d.vec))
+    simple("einsum_tt_matrix_to_tensor", _einsum(lambda g: (tt_matrix_to_tensor(g), tt_matrix_to_matrix(g), TTMatrix(g).to_tensor())), lambda d: (ttm(d),))
+    simple("to_unfolding_methods", lambda f, g, h_: (TTTensor(f).to_unfolding(1), TRTensor(g).to_unfolding(1), TTMatrix(h_).to_unfolding(1)), lambda d: (ttf(d), trf(d), ttm(d)))
+    simple("parafac2_obj_methods", lambda p: (p.to_tensor(), p.to_unfolded(1), p.to_vec()), lambda d: (Parafac2Tensor(p2t(d)),))
+    simple("TensorTrain_OI_class", lambda X, r: (lambda m, m2: (m.fit_transform(X), m.fit(X), m2.fit_transform(X)))(TensorTrain_OI(r, 1, False, True), TensorTrain_OI(r, 2, True, False)), lambda d: (d.X, [1, 2, 2, 1]))
+    simple("cp_plsr_params_score", lambda X, Y: (lambda m: (m.set_params(n_iter_max=50, tol=1e-9), m.fit(X, Y), m.score(X, Y), m.get_params(), m.predict(X), m.score(X, Y)))(CP_PLSR(2, random_state=sd)), lambda d: (d.X, d.Y2))
+    simple("regressor_params_fit_predict_other", lambda X, y, X2: (lambda a, b: (a.set_params(reg_W=0.3), a.get_params(), a.fit(X, y), a.predict(X2), a.predict(X), b.set_params(reg_W=0.3), b.get_params(), b.fit(X, y), b.predict(X2)))(
+        CPRegressor(2, random_state=sd, verbose=0, n_iter_max=3), TuckerRegressor([2, 2], random_state=sd, verbose=0, n_iter_max=3)), lambda d: (d.X, d.y, d.X * 2 - 1))
+    simple("regressor_fail_rows", lambda X, y: (CPRegressor(2, random_state=sd, verbose=0, n_iter_max=3).fit(X, y)), lambda d: (d.X, d.Y2[:3, 0]))
+    # DecompositionMixin.fit + a second fit_transform with the SAME estimator (the options it holds are reused): every class
+    fitseq = lambda m, X: (m.fit(X), m.decomposition_, m.fit_transform(X), repr(m))
+    simple("CP_fit_sequence", lambda X, i, fm, m: fitseq(CP(R, n_iter_max=2, init=i, fixed_modes=fm, mask=m), X), lambda d: (d.X, (d.w, d.fs), [0, 2], d.mask))
+    simple("RandomizedCP_fit_sequence", lambda X, i: fitseq(RandomizedCP(R, 8, n_iter_max=2, init=i, random_state=sd, verbose=0), X), lambda d: (d.X, (d.w, d.fs)))
+    simple("CPPower_SymmetricCP_fit_sequence", lambda X, S3: (fitseq(CPPower(R, n_repeat=2, n_iteration=2), X), fitseq(SymmetricCP(R, n_repeat=2, n_iteration=2), S3)), lambda d: (d.X, d.rs.rand(3, 3, 3).astype(dtype)))
+    simple("CP_NN_fit_sequence", lambda X, i, fm, m: fitseq(CP_NN(R, n_iter_max=2, init=i, fixed_modes=fm, mask=m), X), lambda d: (d.X, cpt(d), [1], d.mask))
+    simple("CP_NN_HALS_fit_sequence", lambda X, i, sc, fm: fitseq(CP_NN_HALS(R, n_iter_max=2, init=i, sparsity_coefficients=sc, fixed_modes=fm), X), lambda d: (d.X, (d.w1, d.fs), [0.1, None, 0.1], [0]))
+    simple("ConstrainedCP_fit_sequence", lambda X, i, fm, l1: fitseq(ConstrainedCP(R, n_iter_max=2, init=i, fixed_modes=fm, l1_reg=l1), X), lambda d: (d.X, (d.w, d.fs), [0], [0.1, 0.2, 0.3]))
+    simple("Parafac2_fit_sequence", lambda sl, i, nn: fitseq(Parafac2(R, n_iter_max=3, init=i, nn_modes=nn), sl), lambda d: (d.slices, p2t(d, d.w1), [0]))
+    simple("Tucker_fit_sequence", lambda X, r, i, m: fitseq(Tucker(r, n_iter_max=2, init=i, mask=m), X), lambda d: (d.X, [2, 2, 2], (d.core, d.tf), d.mask))
+    simple("Tucker_fixed_factors_fit_sequence", lambda X, r, i, ff: fitseq(Tucker(r, n_iter_max=2, init=i, fixed_factors=ff), X), lambda d: (d.X, [2, 2, 2], (d.core, d.tf), [1]))
+    simple("Tucker_NN_fit_sequence", lambda X, r, i: fitseq(Tucker_NN(r, n_iter_max=2, init=i), X), lambda d: (d.X, [2, 2, 2], (d.core, d.tf)))
+    simple("Tucker_NN_HALS_fit_sequence", lambda X, r, i, sc, fm: fitseq(Tucker_NN_HALS(r, n_iter_max=2, init=i, sparsity_coefficients=sc, fixed_modes=fm), X), lambda d: (d.X, [2, 2, 2], (d.core, d.tf), [0.1, None, 0.1], [2]))
+    simple("TT_TR_fit_sequence", lambda X, r1, r2, Y, r3: (fitseq(TensorTrain(r1), X), fitseq(TensorRing(r2), X), fitseq(TensorRingALS(r2, n_iter_max=2, random_state=sd), X),
+                                                           fitseq(TensorRingALSSampled(r2, 10, n_iter_max=2, random_state=sd), X), fitseq(TensorTrainMatrix(r3), Y)),
+           lambda d: (d.X, [1, 2, 2, 1], [2, 2, 2, 2], d.rs.rand(2, 3, 2, 3).astype(dtype), [1, 2, 1]))
+    # the estimator itself as an argument: fit_transform is a mutator of the RECEIVER (it stores decomposition_ / errors_ on it);
+    # everything the receiver holds (init, fixed_modes, mask, coefficient lists) and the tensor stay as they were
+    def ck_name(args):
+        est, X = args[0], args[1]
+        return "(KCpClassFit" + pk_name((X, est.init, est.fixed_modes, est.mask))[len("(KParafacN"):]
+    def chk_name(args):
+        est, X = args[0], args[1]
+        return "(KHalsClassFit" + hk_name((X, est.init, est.sparsity_coefficients, est.fixed_modes))[len("(KHalsN"):]
+    def ctk_name(args):
+        return "(KTuckerClassFit" + tk_name((args[1],))[len("(KTuckerN"):]
+    simple("CP_receiver_fit_transform", lambda est, X: est.fit_transform(X), lambda d: (CP(R, n_iter_max=2, init=(d.w, d.fs), fixed_modes=[0, 2], mask=d.mask), d.X), inplace=[0], skel=(ck_name, [0, 1]))
+    simple("CP_receiver_fit_transform_cptensor_nomask", lambda est, X: est.fit_transform(X), lambda d: (CP(R, n_iter_max=2, init=cpt(d), fixed_modes=[1, 2]), d.X), inplace=[0], skel=(ck_name, [0, 1]))
+    simple("CP_receiver_fit_fail_cvg", lambda est, X: est.fit(X), lambda d: (CP(R, n_iter_max=4, init=(d.w, d.fs), fixed_modes=[0], mask=d.mask, cvg_criterion="bogus"), d.X), inplace=[0], skel=(ck_name, [0, 1]))
+    simple("CP_NN_HALS_receiver_fit_transform", lambda est, X: est.fit_transform(X), lambda d: (CP_NN_HALS(R, n_iter_max=2, init=(d.w1, d.fs), sparsity_coefficients=[0.1, None, 0.1], fixed_modes=[0]), d.X), inplace=[0], skel=(chk_name, [0, 1]))
+    simple("Tucker_receiver_fit_transform", lambda est, X: est.fit_transform(X), lambda d: (Tucker([2, 2, 2], n_iter_max=2, init=(d.core, d.tf), mask=d.mask), d.X), inplace=[0], skel=(ctk_name, [0, 1]))
+    simple("Tucker_receiver_fit_transform_obj", lambda est, X: est.fit(X), lambda d: (Tucker([2, 2, 2], n_iter_max=2, init=TuckerTensor((d.core, d.tf))), d.X), inplace=[0], skel=(ctk_name, [0, 1]))
+    simple("CP_PLSR_receiver_fit", lambda est, X, Y: est.fit(X, Y), lambda d: (CP_PLSR(2, random_state=sd), d.X, d.Y2), inplace=[0])
+    simple("CPRegressor_receiver_fit", lambda est, X, y: est.fit(X, y), lambda d: (CPRegressor(2, random_state=sd, verbose=0, n_iter_max=3), d.X, d.y), inplace=[0])
+    def _fitted(m, *a):
+        m.fit(*a)
+        return m
+    # fitted estimators as (protected) arguments of the read-only methods
+    simple("CP_PLSR_fitted_predict_transform_score", lambda est, X, Y: (est.predict(X), est.transform(X), est.transform(X, Y), est.score(X, Y), est.get_params()), lambda d: (_fitted(CP_PLSR(2, random_state=sd), d.X, d.Y2), d.X + 0.5, d.Y2 * 2))
+    simple("regressors_fitted_predict", lambda a, b, X: (a.predict(X), b.predict(X), a.get_params(), b.get_params()),
+           lambda d: (_fitted(CPRegressor(2, random_state=sd, verbose=0, n_iter_max=3), d.X, d.y), _fitted(TuckerRegressor([2, 2], random_state=sd, verbose=0, n_iter_max=3), d.X, d.y), d.X * 2))
+    # tucker_mode_dot: copy=False is the default; with a vector it pops from the caller's factor list, with a matrix it assigns into it
+    TMI = lambda k: (k, [0, 1])
+    simple("tucker_mode_dot_default_vector_obj", lambda t, v: tucker_mode_dot(t, v, 1), lambda d: (tkt(d), d.vec), inplace=[0], skel=TMI("KTuckerModeDotVecInplace"))
+    simple("tucker_mode_dot_inplace_vector_skel", lambda t, v: tucker_mode_dot(t, v, 1, copy=False), lambda d: ((d.core, d.tf), d.vec), inplace=[0], skel=TMI("KTuckerModeDotVecInplace"))
+    simple("tucker_mode_dot_inplace_matrix_skel", lambda t, Mx: tucker_mode_dot(t, Mx, 1, copy=False), lambda d: (tkt(d), d.mat), inplace=[0], skel=TMI("KTuckerModeDotMatInplace"))
+    simple("tucker_mode_dot_copy_vector_skel", lambda t, v: tucker_mode_dot(t, v, 1, copy=True), lambda d: (tkt(d), d.vec), skel=TMI("KTuckerModeDotCopy"))
+    simple("tucker_mode_dot_fail_shape", lambda t, Mx: tucker_mode_dot(t, Mx, 0, copy=False), lambda d: (tkt(d), d.mat), inplace=[0], skel=TMI("KTuckerModeDotMatInplace"))
+    simple("tucker_method_mode_dot_default", lambda t, v: t.mode_dot(v, 1), lambda d: (tkt(d), d.vec), inplace=[0])
+    simple("index_update_small", lambda X, v: tl.index_update(X, tl.index[:, 1], v), lambda d: (d.rs.rand(3, 2).astype(dtype), d.rs.rand(3).astype(dtype) + 2), inplace=[0], skel=("KIndexUpdate", [0, 1]))
+    simple("index_update_fail_shape", lambda X, v: tl.index_update(X, tl.index[:, 1], v), lambda d: (d.rs.rand(3, 2).astype(dtype), d.rs.rand(5).astype(dtype) + 2), inplace=[0], skel=("KIndexUpdate", [0, 1]))
     return E
 
 
@@ -1983,8 +2052,93 @@ ALL_VARIANTS = ["fresh", "transposed", "sliced", "strided", "readonly"]
 # argument contradicts the model (no write command targets a caller-owned object); the harness then searches a failing input
 
 
+class Interrupted(RuntimeError):
+    """raised by the harness inside the library (at the k-th internal function call): `run c n` of Model/Effects.v"""
+
+
+_TL_DIR = [None]
+
+
+def tl_dir():
+    if _TL_DIR[0] is None:
+        import tensorly
+        _TL_DIR[0] = os.path.dirname(os.path.abspath(tensorly.__file__)) + os.sep
+    return _TL_DIR[0]
+
+
+SURFACE = {}         # code object -> qualified name of a public callable of the audited packages (filled by public_surface)
+SURFACE_HIT = {}     # qualified name -> first configuration that executed it
+CALL_COUNTS = {}     # (configuration, dtype, data seed) -> number of internal function calls of an uninterrupted "fresh" run
+
+
+class Tracer:
+    """global trace function (call events only; no local tracing).  Counts the calls of functions defined under
+    REPO/tensorly, records which public callables run, and raises Interrupted at the k-th such call when asked to."""
+    def __init__(self, k=None, label=None):
+        self.k, self.n, self.label, self.fired, self.prefix = k, 0, label, None, tl_dir()
+
+    def __call__(self, frame, event, arg):
+        if event != "call":
+            return None
+        code = frame.f_code
+        if not code.co_filename.startswith(self.prefix):
+            return None
+        self.n += 1
+        if self.label is not None and code in SURFACE:
+            SURFACE_HIT.setdefault(SURFACE[code], self.label)
+        if self.k is not None and self.n == self.k:
+            self.fired = f"{os.path.basename(code.co_filename)}:{code.co_name}"
+            sys.settrace(None)
+            raise Interrupted(f"injected at internal call {self.k} ({self.fired})")
+        return None
+
+
+SURFACE_PACKAGES = ["tensorly.decomposition", "tensorly.solvers", "tensorly.tenalg", "tensorly.metrics", "tensorly.preprocessing",
+                    "tensorly.regression", "tensorly.contrib", "tensorly.cp_tensor", "tensorly.tucker_tensor", "tensorly.tt_tensor",
+                    "tensorly.tr_tensor", "tensorly.tt_matrix", "tensorly.parafac2_tensor", "tensorly.base", "tensorly.random"]
+# infrastructure, not calls on caller data: backend dispatch / registration
+SURFACE_EXCLUDED = ("TenalgBackendManager.", "TenalgBackend.", ".register_", ".dynamically_dispatched", ".sparse")
+
+
+def public_surface():
+    """code object -> name for every public function / public method of a public class defined in the audited packages
+    (as imported from VERIF_REPO now); modules that cannot be imported (optional dependencies) are skipped and listed"""
+    import importlib, inspect, pkgutil
+    out, failed, mods = {}, [], []
+    for p in SURFACE_PACKAGES:
+        try:
+            m = importlib.import_module(p)
+        except Exception as e:
+            failed.append(f"{p}: {type(e).__name__}"); continue
+        mods.append(m)
+        if hasattr(m, "__path__"):
+            for mi in pkgutil.walk_packages(m.__path__, p + "."):
+                if ".tests" in mi.name or "sparse" in mi.name:
+                    continue
+                try:
+                    mods.append(importlib.import_module(mi.name))
+                except Exception as e:
+                    failed.append(f"{mi.name}: {type(e).__name__}")
+    for m in mods:
+        for n, o in list(vars(m).items()):
+            if n.startswith("_"):
+                continue
+            if inspect.isfunction(o) and o.__module__ == m.__name__:
+                out[o.__code__] = f"{m.__name__}.{n}"
+            elif inspect.isclass(o) and o.__module__ == m.__name__:
+                for mn, mo in list(vars(o).items()):
+                    f = mo.__func__ if isinstance(mo, (staticmethod, classmethod)) else (mo.fget if isinstance(mo, property) else mo)
+                    if inspect.isfunction(f) and (not mn.startswith("_") or mn == "__init__"):
+                        out[f.__code__] = f"{m.__name__}.{n}.{mn}"
+    out = {c: q for c, q in out.items() if not any(x in q for x in SURFACE_EXCLUDED)}
+    return out, failed
+
+
 def run_config(name, variant, dtype, seed):
-    """-> dict(outcome, changed=[(oid, path, what)], heap, spec, allowed) or None if the configuration does not exist"""
+    """-> dict(outcome, changed=[(oid, path, what)], heap, spec, allowed) or None if the configuration does not exist.
+    variant "kind!k": the call is made to raise at its k-th internal function call (an exception half-way)"""
+    variant, _, inj = variant.partition("!")
+    inject = int(inj) if inj else None
     if name.startswith("fuzz:"):
         spec = fuzz_spec(int(name[5:]), np.dtype(dtype).type)
     else:
@@ -2012,8 +2166,20 @@ def run_config(name, variant, dtype, seed):
         heap.views = [(oid, path, a, arr_meta(a)) for oid, path, a, meta in heap.views]
     C.reset_backends()
     buf = io.StringIO()
+    tracer = Tracer(inject, name) if (inject is not None or (variant == "fresh" and SURFACE)) else None
     with contextlib.redirect_stdout(buf), contextlib.redirect_stderr(buf):
-        out = C.call_impl(spec["fn"], *args, timeout=60)
+        if tracer is None:
+            out = C.call_impl(spec["fn"], *args, timeout=60)
+        else:
+            def traced(*a):
+                sys.settrace(tracer)
+                try:
+                    return spec["fn"](*a)
+                finally:
+                    sys.settrace(None)
+            out = C.call_impl(traced, *args, timeout=60)
+            if inject is None and out[0] != "crash":
+                CALL_COUNTS[(name, str(np.dtype(dtype)), seed)] = tracer.n
     C.reset_backends()
     changed = heap.changed()
     allowed = heap.region(sorted(spec["inplace"]))
@@ -2021,7 +2187,8 @@ def run_config(name, variant, dtype, seed):
     if variant == "readonly" and out[0] != "ok" and "read-only" in str(out[1]):
         attempts.append("ndarray: " + str(out[1])[:120])
     return dict(outcome=out[0], detail=None if out[0] == "ok" else out[1], changed=changed, heap=heap, spec=spec,
-                allowed=allowed, args=args, write_attempts=attempts)
+                allowed=allowed, args=args, write_attempts=attempts, injected=(tracer.fired if tracer is not None else None),
+                internal_calls=(tracer.n if tracer is not None else None))
 
 
 def case_literal(cid, r):
@@ -2039,7 +2206,7 @@ def case_literal(cid, r):
         k = "None"
     flags_l = "[" + "; ".join(C.boolc(f) for f in flags) + "]" if flags else "(@nil bool)"
     refs_l = "[" + "; ".join(heap.ref_lit(x) for x in refs) + "]" if refs else "(@nil ref)"
-    return f"({cid}%nat, {k}, {flags_l}, {refs_l}, {heap.heap_lit()}, {C.nat_list(sorted({c[0] for c in r['changed']}))})"
+    return f"({cid}%Z, {k}, {flags_l}, {refs_l}, {heap.heap_lit()}, {C.z_list(sorted({c[0] for c in r['changed']}))}, {C.boolc(r['outcome'] != 'ok')})"
 
 
 def predicate(r):
@@ -2083,6 +2250,25 @@ def plan(tier, rng):
     return cases
 
 
+def plan_interrupts(tier, rng):
+    """exception paths: every table configuration once more (quick) / four times more (thorough), made to raise at a random
+    one of its internal function calls (counted during the uninterrupted "fresh" run of the first pass)"""
+    out = []
+    per = 1 if tier == "quick" else 2
+    for (name, dtype, seed), total in sorted(CALL_COUNTS.items()):
+        if total <= 0 or name.startswith("fuzz:"):
+            continue
+        if name in HEAVY and tier == "quick":
+            continue
+        for _ in range(per):
+            k = rng.randint(1, min(total, 25)) if rng.random() < 0.3 else rng.randint(1, total)
+            out.append((name, f"{rng.choice(ALL_VARIANTS)}!{k}", dtype, seed))
+    nf = 15 if tier == "quick" else 250
+    for _ in range(nf):
+        out.append((f"fuzz:{rng.randint(0, 10 ** 9)}", f"{rng.choice(ALL_VARIANTS)}!{rng.randint(1, 400)}", rng.choice(["float64", "float32"]), 0))
+    return out
+
+
 def _load_known_with_local(prop):
     """common.load_known reads only the merged /verif/known_findings.json (regenerated by the coordinator); until then the
     entries of known_findings.d/C15.json are merged here (local helper, common.py is not edited)."""
@@ -2110,23 +2296,53 @@ CLASSIFIERS = {"prw_caller_lists_rewritten": prw_caller_lists_rewritten}
 def run(chk):
     C.load_known = _load_known_with_local
     rng = random.Random(chk.seed)
-    chk.build_proofs()
+    # the Coq build (normally a no-op) and the Print Assumptions pass do not depend on the implementation calls: they run in a
+    # worker thread (subprocesses) while the main thread calls the implementation; joined before the first shard is compiled
+    import threading
+    def _build():
+        try:
+            chk.build_proofs()
+        except Exception as e:      # never lost silently
+            chk.broken.append({"what": "Coq build / Print Assumptions pass crashed", "detail": f"{type(e).__name__}: {e}"[:500]})
+    builder = threading.Thread(target=_build)
+    builder.start()
     C.reset_backends()
     cases, meta = [], []
     t_impl = time.time()
-    for (name, variant, dtype, seed) in plan(chk.tier, rng):
+    try:        # surface audit: which public callables of the anchored packages does the table execute (measured on every run)
+        surf, surf_failed = public_surface()
+        SURFACE.clear(); SURFACE.update(surf); SURFACE_HIT.clear(); CALL_COUNTS.clear()
+    except Exception as e:
+        surf_failed = [f"{type(e).__name__}: {e}"[:200]]
+    todo = list(plan(chk.tier, rng))
+    pos, injected_planned = 0, False
+    while True:
+        if pos >= len(todo):
+            if injected_planned:
+                break
+            todo.extend(plan_interrupts(chk.tier, rng)); injected_planned = True      # needs the call counts of the first pass
+            continue
+        (name, variant, dtype, seed) = todo[pos]; pos += 1
         r = run_config(name, variant, dtype, seed)
         if r["outcome"] == "crash" and r["detail"] == "timeout":      # loaded machine: never a verdict
             chk.hist("outcome", "skipped_timeout")
             continue
+        if "!" in variant:
+            chk.hist("interrupt", "raised inside the library" if r["injected"] else "call finished before the k-th internal call")
+            if r["injected"]:
+                chk.hist("interrupt_site", r["injected"])
+                chk.hist("interrupt_changed_objects", len(r["changed"]))
+            variant_kind = variant.partition("!")[0] + "!k"
+        else:
+            variant_kind = variant
         cid = len(cases)
         cases.append(case_literal(cid, r))
         meta.append((name, variant, dtype, seed, r["outcome"], [f"{p} ({w})" for _, p, w in r["changed"]]))
         n_objs = len(r["heap"].objs)
-        chk.count(key=(name, variant, dtype), nontrivial=n_objs > 0)
+        chk.count(key=(name, variant_kind, dtype), nontrivial=n_objs > 0)
         if name.startswith("fuzz:"):
             chk.hist("fuzz_algorithm", r["spec"]["algo"]); chk.hist("fuzz_outcome", r["spec"]["algo"] + ":" + r["outcome"])
-        chk.hist("outcome", r["outcome"]); chk.hist("variant", variant); chk.hist("dtype", dtype)
+        chk.hist("outcome", r["outcome"]); chk.hist("variant", variant_kind); chk.hist("dtype", dtype)
         sk = r["spec"]["skel"]
         chk.hist("modelled", (sk[0].__name__ if callable(sk[0]) else sk[0]) if sk else "footprint-only")
         chk.hist("heap_objects", min(n_objs, 20))
@@ -2156,14 +2372,24 @@ def run(chk):
             chk.finding(r["spec"].get("ep") or f"tensorly:{name}", {"config": name, "variant": variant, "dtype": dtype, "data_seed": seed,
                                              "outcome": r["outcome"], "detail": r["detail"]}, msg, "C15_footprint")
     chk.notes.append(f"implementation calls: {len(cases)} in {time.time() - t_impl:.1f}s")
-    failing, n_eval, broken = C.run_case_shards("C15", HEADER, "case", cases, shard=150)
+    if SURFACE:
+        allq = sorted(set(SURFACE.values()))
+        missing = [q for q in allq if q not in SURFACE_HIT]
+        chk.cov["public_surface"] = {"packages": SURFACE_PACKAGES, "public_callables": len(allq), "executed_by_the_table": len(allq) - len(missing),
+                                     "never_executed": missing, "modules_not_importable": surf_failed,
+                                     "excluded_infrastructure": list(SURFACE_EXCLUDED)}
+        chk.notes.append(f"public surface: {len(allq) - len(missing)} of {len(allq)} public callables executed by the table" +
+                         (f"; NOT executed: {', '.join(missing[:12])}" if missing else ""))
+    builder.join()
+    failing, n_eval, broken = C.run_case_shards("C15", HEADER_CASES, "case", cases, shard=200)
     chk.checker_cmds.append("coqc (vm_compute) on generated build/cases/C15/*.v: Corr.C15.failing")
     chk.cov["traces_validated_against_impl"] = n_eval
     chk.cov["exhaustive"] = False
     chk.cov["rule"] = ("one case = one entry-point configuration of the table (decompositions, solvers, proximal operators, factorised-tensor "
                        "conversions, tensor algebra, metrics, preprocessing, regressors; user inits as tuple / list / wrapper object, masks, "
                        "fixed modes, coefficient lists, warm starts, calls made to fail) x argument kind (fresh / transposed view / slice of a "
-                       "larger array with sentinel border / strided) x dtype; before/after deep snapshot of every object reachable from the "
+                       "larger array with sentinel border / strided / read-only) x dtype, and once more made to RAISE at a random internal function call "
+                       "(kind!k: a trace hook raises inside tensorly at the k-th call of a function defined under tensorly/); before/after deep snapshot of every object reachable from the "
                        "arguments; distinct key = (configuration, kind, dtype); non-trivial = at least one heap object reachable from the arguments")
     for b in broken:
         chk.broken.append({"what": "correspondence corr:C15 shard not evaluated", "detail": b})
